@@ -462,6 +462,81 @@ template<typename R> void builder_styles(const char *rname) {
     }
 }
 
+// Many keys: W children under the root and W more under one of them.  Whatever the tree does differently above some fan-out (another container, a cache of the last
+// children, a sorted vector) is on both sides of it here.  Deliveries are judged by the C06 run, what shrink keeps and removes by the C13 run.
+template<typename R> void wide_router(const char *rname, int maxw, bool c13) {
+    for (int W = 1; W <= maxw; W++) {
+        if (deadline_passed()) { shm->exhaustive = 0; return; }
+        std::string hist = fmt("wide router=%s c13=%d width=%d", rname, (int)c13, W);
+        mark(hist);
+        auto name = [](int i) { return std::string("k") + std::to_string(i); };
+        int mid = W / 2;
+        R router;
+        std::vector<int> called;
+        std::vector<HandleOf<R>> top, sub;
+        // subscribe in an order that is neither ascending nor descending
+        std::vector<int> order; for (int i = 0; i < W; i++) order.push_back((i * 7 + 3) % W); { std::set<int> u(order.begin(), order.end()); if ((int)u.size() != W) { order.clear(); for (int i = 0; i < W; i++) order.push_back(i); } }
+        top.resize(W); sub.resize(W);
+        for (int i : order) { top[i].h.emplace(router.template subscribe<>(build_key({name(i)}), [&called, i] { called.push_back(i); })); sub[i].h.emplace(router.template subscribe<>(build_key({name(mid), name(i)}), [&called, i] { called.push_back(1000 + i); })); }
+        std::set<int> live_top, live_sub; for (int i = 0; i < W; i++) { live_top.insert(i); live_sub.insert(i); }
+        std::set<int> has_top = live_top, has_sub = live_sub;      // keys that hold a Subject (an emptied Subject stays until a shrink removes it; notify() returns the number of Subjects it reached)
+        auto probe = [&](const char *what, const RoutingKey &key, int level, auto pred) {
+            called.clear();
+            size_t ret = router.notify(key);
+            std::vector<int> got = called; std::sort(got.begin(), got.end()); called.clear();
+            std::vector<int> want; size_t want_ret = 0;
+            if (level == 1) { for (int i : live_top) if (pred(i)) want.push_back(i); for (int i : has_top) if (pred(i)) want_ret++; }
+            else { for (int i : live_sub) if (pred(i)) want.push_back(1000 + i); for (int i : has_sub) if (pred(i)) want_ret++; }
+            shm->evaluations++; shm->transitions++; if (!want.empty()) shm->nontrivial++;
+            if (got != want || ret != want_ret)
+                violation(c13 ? "wide:delivery-after-shrink" : "wide:delivery", fmt("%d keys per level%s: %s returned %zu and invoked %zu observers, expected %zu and %zu (each observer under a matching key once)", W, c13 ? ", after a shrink" : "", what, ret, got.size(), want_ret, want.size()), hist);
+        };
+        auto probes = [&] {
+            for (int i : std::set<int>{0, mid, W - 1}) {
+                probe("notify(k<i>)", build_key({name(i)}), 1, [&](int j) { return j == i; });
+                probe("notify(k<mid>/k<i>)", build_key({name(mid), name(i)}), 2, [&](int j) { return j == i; });
+                probe("notify(*/k<i>)", RoutingKeyBuilder().all().level(name(i)).build(), 2, [&](int j) { return j == i; });
+            }
+            probe("notify(*)", RoutingKeyBuilder().all().build(), 1, [](int) { return true; });
+            probe("notify(k<mid>/*)", RoutingKeyBuilder().level(name(mid)).all().build(), 2, [](int) { return true; });
+            probe("notify(*/*)", RoutingKeyBuilder().all().all().build(), 2, [](int) { return true; });
+            probe("notify(/k.*/)", RoutingKeyBuilder().level(std::regex("k.*")).build(), 1, [](int) { return true; });
+            probe("notify(/k1.*/)", RoutingKeyBuilder().level(std::regex("k1.*")).build(), 1, [&](int j) { return name(j).compare(0, 2, "k1") == 0; });
+            probe("notify(/k.*/ / /k.*3/)", RoutingKeyBuilder().level(std::regex("k.*")).level(std::regex("k.*3")).build(), 2, [&](int j) { return name(j).back() == '3'; });
+            probe("notify(missing)", build_key({"zz"}), 1, [](int) { return false; });
+        };
+        if (!c13) probes();
+        // every other observer leaves (the middle one of the top level stays: it carries the second level)
+        for (int i = 0; i < W; i += 2) { if (i != mid) { top[i].unsubscribe(); live_top.erase(i); } sub[i].unsubscribe(); live_sub.erase(i); }
+        if (!c13) probes();
+        if (c13) {
+            auto state = [&](const char *when) {
+                shm->evaluations++; shm->transitions++; shm->nontrivial++;
+                for (int i = 0; i < W; i++) {
+                    bool t = router.exists(build_key({name(i)})), u = router.exists(build_key({name(mid), name(i)}));
+                    if (live_top.count(i) && !t) violation("wide:live-key-missing", fmt("%d keys per level, %s: exists(k%d) is false although an observer is subscribed there", W, when, i), hist);
+                    if (live_sub.count(i) && !u) violation("wide:live-key-missing", fmt("%d keys per level, %s: exists(k%d/k%d) is false although an observer is subscribed there", W, when, mid, i), hist);
+                    if (strcmp(when, "before the shrink") && !live_top.count(i) && i != mid && t) violation("wide:dead-key-kept", fmt("%d keys per level, %s: exists(k%d) is true although nothing is subscribed at or below it", W, when, i), hist);
+                    if (strcmp(when, "before the shrink") && !live_sub.count(i) && u) violation("wide:dead-key-kept", fmt("%d keys per level, %s: exists(k%d/k%d) is true although nothing is subscribed at or below it", W, when, mid, i), hist);
+                }
+                size_t want = live_sub.empty() ? (live_top.empty() ? 1 : 2) : 3;
+                if (strcmp(when, "before the shrink") && router.depth() != want) violation("wide:depth", fmt("%d keys per level, %s: depth() == %zu, expected %zu", W, when, router.depth(), want), hist);
+            };
+            state("before the shrink");
+            router.shrink(RoutingKeyBuilder().all().all().build());
+            has_top = live_top; has_top.insert(mid); has_sub = live_sub;
+            if (live_sub.empty() && !live_top.count(mid)) has_top.erase(mid);
+            state("after shrink(*/*)");
+            probes();
+            // what the shrink removed is subscribed again
+            for (int i = 0; i < W; i += 2) { if (i != mid) { top[i].h.emplace(router.template subscribe<>(build_key({name(i)}), [&called, i] { called.push_back(i); })); live_top.insert(i); } sub[i].h.emplace(router.template subscribe<>(build_key({name(mid), name(i)}), [&called, i] { called.push_back(1000 + i); })); live_sub.insert(i); }
+            has_top = live_top; has_sub = live_sub;
+            state("after subscribing the removed keys again");
+            probes();
+        }
+    }
+}
+
 void explore() {
     bool c13 = opt.property == "C13";
     build_universe(thorough());
@@ -482,8 +557,11 @@ void explore() {
         tasks.push_back([=] { bfs<ConcurrentSubjectRouter, int>(2, false, "concurrent"); });
         tasks.push_back([=] { builder_styles<SubjectRouter>("plain"); builder_styles<ConcurrentSubjectRouter>("concurrent"); });
     }
+    { int maxw = thorough() ? 70 : 40; tasks.push_back([=] { wide_router<SubjectRouter>("plain", maxw, c13); wide_router<ConcurrentSubjectRouter>("concurrent", maxw, c13); }); }
     parallel(tasks);
     shm->validated = shm->evaluations;
+    sx::detail(fmt("many keys: 1..%d children under the root and as many under one of them, an observer under each; concrete, wildcard and regex notifies%s", thorough() ? 70 : 40,
+                   c13 ? " after half of the observers left and shrink(*/*) ran: live keys exist, dead keys are gone, depth() agrees, the removed keys can be subscribed again" : " before and after half of the observers left"));
     sx::detail(fmt("key universe: %zu subscribable keys (depth 1..3 over the level names a, b, ab: equal names at different levels, one name a prefix of another), %zu storable keys; probe set: all %zu patterns of depth 1..3 over literal/wildcard/regex levels; "
                    "shrink patterns: %zu; at most %d live subscriptions (2 per key) and 2 dead keys at a time; states are merged on the implementation's routing tree (node names, subject presence, observer counts); one search per router type and argument signature, run in parallel",
                    U->sub_keys.size(), U->all_keys.size(), U->patterns.size(), U->shrink_patterns.size(), maxlive));
@@ -491,6 +569,11 @@ void explore() {
 
 void replay(const std::string &hist) {
     char rn[32], sig[32]; int maxlive, c13;
+    if (hist.compare(0, 5, "wide ") == 0) {
+        int w = 1, c = 0; const char *q = strstr(hist.c_str(), "width="); if (q) w = atoi(q + 6); q = strstr(hist.c_str(), "c13="); if (q) c = atoi(q + 4);
+        if (hist.find("router=plain") != std::string::npos) wide_router<SubjectRouter>("plain", w, c); else wide_router<ConcurrentSubjectRouter>("concurrent", w, c);
+        return;
+    }
     if (hist.compare(0, 8, "builder ") == 0) {      // cheap enough to be repeated as a whole
         build_universe(thorough());
         if (hist.find("router=plain") != std::string::npos) builder_styles<SubjectRouter>("plain"); else builder_styles<ConcurrentSubjectRouter>("concurrent");
